@@ -1037,6 +1037,9 @@ func execC04S(x *hysim.Run) {
 		<-done
 		peer.Close()
 		sut.Close()
+		if left := x.WaitTasks(30 * time.Second); len(left) != 0 {
+			hysim.HarnessBug("peer writer still alive at the end of the run: %v", left)
+		}
 	}
 	if c.ftW > 0 {
 		var ft uint64
